@@ -64,6 +64,14 @@ LOOP_BODIES = [
     # an interrupt raised while the arguments of a BUILTIN call are evaluated (println, list members) and caught
     "try { println(g(0 - i)); } catch e { s += 5; };",
     "try { l.push(g(0 - i)); } catch e { s += 6; }; if l.len() > 3 { l.pop(); };",
+    # constructs whose value or control value is dropped on EVERY way through them: a match without a default arm that
+    # matches nothing, an if without else, block values, loops left early, options, function literals
+    "match i { 0 => { s += 1; }, 1 => { s += 2; } }; s += 1;",
+    "match i % 2 == 0 { true => { s += 1; } }; match \"k\" { \"a\" => { s += 9; } };",
+    "if i % 2 == 0 { s += 1; }; let b = { let q = i; q + 1 }; s += b;",
+    "for c in \"ab\" { s += c.len(); } let r = 0..3; for x in r { if x == 1 { break; }; s += x; }",
+    "s += [i, 2][1]; s += (new { a: i }).a; let op: ?int = ?i; s += op.unwrap_or(0); if op.is_some() { s += 1; };",
+    "let w = 0; while w < 3 { w += 1; if w == 2 { continue; }; } s += w; let fl = fn(z: int) -> int { z + 1 }; s += fl(i);",
     # list members called as statements, whatever they answer (push / remove / insert / pop_front in a sliding window)
     "l.push(i); l.remove(0); l.insert(0, i); l.pop_front(); l.pop(); l.push(i); s += l.len();",
 ]
